@@ -191,7 +191,9 @@ def g_token(rng, kf=True):
 
 def gen_Q(rng, tier):
     n = rng.choice([1, 1, 2, 2, 3, 4, 6, 9, 14])
-    return "Q " + " ".join(g_token(rng) for _ in range(n))
+    # known-finding shapes (raw strings, two comment shapes) are drawn at random only in the thorough tier; the quick
+    # tier has their minimal witnesses in fixed_cases() (every failing case is shrunk, which costs process starts)
+    return "Q " + " ".join(g_token(rng, kf=(tier != "quick")) for _ in range(n))
 
 
 # spelling of a token for the byte streams (python reference printer)
